@@ -4,6 +4,7 @@ package server
 // requested seeds (or a replay file) one bubble at a time, and writes one JSON line per run.
 
 import (
+	"syscall"
 	"bufio"
 	"encoding/json"
 	"fmt"
@@ -69,6 +70,37 @@ func genScript(family, mode, tier string, seed uint64) *Script {
 
 var extraGenerators = map[string]func(seed uint64, tier, mode string) *Script{}
 
+var statmFd = -1
+var statmBuf [128]byte
+
+// residentMiB reads the resident set size without allocating (the watchdog must not disturb the
+// heap layout of the run it watches).
+func residentMiB() int64 {
+	if statmFd < 0 {
+		fd, err := syscall.Open("/proc/self/statm", syscall.O_RDONLY, 0)
+		if err != nil {
+			return 0
+		}
+		statmFd = fd
+	}
+	n, err := syscall.Pread(statmFd, statmBuf[:], 0)
+	if err != nil || n <= 0 {
+		return 0
+	}
+	// second field: resident pages
+	i := 0
+	for i < n && statmBuf[i] != ' ' {
+		i++
+	}
+	i++
+	var pages int64
+	for i < n && statmBuf[i] >= '0' && statmBuf[i] <= '9' {
+		pages = pages*10 + int64(statmBuf[i]-'0')
+		i++
+	}
+	return pages * 4096 >> 20
+}
+
 func watchdog(limit time.Duration) {
 	last := uint64(0)
 	same := 0
@@ -98,10 +130,11 @@ func watchdog(limit time.Duration) {
 		if memTick++; memTick%5 == 0 {
 			// GC is off during a run: a run that allocates without bound (a script whose own
 			// loop never lets virtual time pass, say) must not take the machine down
-			var ms runtime.MemStats
-			runtime.ReadMemStats(&ms)
-			if ms.HeapAlloc > uint64(envInt("VSIM_MEM_MB", 10240))<<20 {
-				fmt.Fprintf(os.Stderr, "VSIM-RESOURCE: heap %d MiB in run index %d: aborting the worker\n", ms.HeapAlloc>>20, vsimCurIdx.Load())
+			// (resident size from /proc: runtime.ReadMemStats stops the world, which preempts the
+			// running goroutine of the simulated system at a real-time-dependent point - long runs
+			// on a loaded machine stopped being reproducible when the guard used it)
+			if rss := residentMiB(); rss > envInt("VSIM_MEM_MB", 10240) {
+				fmt.Fprintf(os.Stderr, "VSIM-RESOURCE: resident %d MiB in run index %d: aborting the worker\n", rss, vsimCurIdx.Load())
 				os.Exit(5)
 			}
 		}
